@@ -31,6 +31,9 @@ func alphabet(syms uint16) []string {
 	if syms&symC != 0 {
 		add("c", "C")
 	}
+	if syms&symUpB != 0 {
+		set["B"] = true
+	}
 	if syms&symNL != 0 {
 		set["\n"] = true
 	}
